@@ -49,7 +49,8 @@ def post_check(counters):
 def calibration_case(rec, seedt, tier):
     from speckit.analysis import SpectrumAnalyzer
     rng = gen.rng_for(*seedt)
-    Ls = [64, 100, 257, 1000, 4096] + ([16384] if tier == "thorough" or rng.random() < 0.1 else [])
+    Ls = [64, 100, 257, 1000, 1025, 2049, 4096, 4097] + \
+        ([16384, 16385] if tier == "thorough" or rng.random() < 0.1 else [])
     L = int(rng.choice(Ls))
     psll = float(rng.uniform(60, 200))
     ml = refmodel.mainlobe_halfwidth("kaiser", psll)
